@@ -171,6 +171,35 @@ impl Prop for C09 {
             Case::Contiguous { g, family } => {
                 let m = reprs::model_of(g);
                 check_tarjan(&AdjacencyList::build(g), "AdjacencyList", &m)?;
+                if m.order() <= 40 {
+                    // clones, and clone_from targets built over another digraph (fresh or used)
+                    let al = AdjacencyList::build(g);
+                    let want: Vec<BTreeSet<usize>> = Tarjan::new(&al).components().clone();
+                    let other = AdjacencyList::build(&gen::path_dg(if m.size() % 2 == 0 { m.order() / 2 } else { m.order() + 3 }));
+                    for used_source in [false, true] {
+                        let mut src = Tarjan::new(&al);
+                        if used_source {
+                            let _ = src.components();
+                        }
+                        let cl = src.clone().components().clone();
+                        ensure!(cl == want, "Tarjan<AdjacencyList>: a clone of a {} instance returns {cl:?}, a fresh instance {want:?}", if used_source { "used" } else { "fresh" });
+                        for used_target in [false, true] {
+                            let mut t = Tarjan::new(&other);
+                            if used_target {
+                                let _ = t.components();
+                            }
+                            t.clone_from(&src);
+                            let r = t.components().clone();
+                            ensure!(
+                                r == want,
+                                "Tarjan<AdjacencyList>: clone_from onto a {} instance built over a path of order {} from a {} instance returns {r:?}, a fresh instance {want:?}",
+                                if used_target { "used" } else { "fresh" },
+                                graaf::Order::order(&other),
+                                if used_source { "used" } else { "fresh" }
+                            );
+                        }
+                    }
+                }
                 check_tarjan(&AdjacencyMap::build(g), "AdjacencyMap", &m)?;
                 check_tarjan(&AdjacencyMatrix::build(g), "AdjacencyMatrix", &m)?;
                 check_tarjan(&EdgeList::build(g), "EdgeList", &m)?;
